@@ -99,7 +99,12 @@ def reply (toks : List String) : String :=
     match WireExpr.parseExpr (rest.length + 1) rest with
     | some (e, []) =>
       match (Ast.build e).fmt with
-      | some s => Wire.hexOfStr s
+      | some s =>
+        -- self-check of the reader theorems on the very text that is diffed against the real
+        -- `to_string()`: in the theorem's domain, reading the text must give the expression back
+        if (Ast.build e).columns.all goodIdentB && readText s != some (Ast.build e) then
+          "MODEL-READER-DISAGREES " ++ Wire.hexOfStr s
+        else Wire.hexOfStr s
       | none => "unmodelled"
     | _ => "bad-request"
   | ["ts_rt", secs, nanos] =>
